@@ -213,7 +213,7 @@ pub async fn run(server_bin: &str, seed: u64, extra: usize, out: &str, mode: &st
     let (mut cases, mut impls, mut oracle) = (vec![], vec![], vec![]);
     let mut stats: BTreeMap<String, u64> = BTreeMap::new();
     let mut trig = BTreeSet::new();
-    for name in &names {
+    'outer: for name in &names {
         let en = enc(name);
         for op in OPS {
             if std::env::var("HX_TRACE").is_ok() { eprintln!("case {name:?} {op}"); }
@@ -233,10 +233,14 @@ pub async fn run(server_bin: &str, seed: u64, extra: usize, out: &str, mode: &st
                             Err(e) => { eprintln!("harness: reboot failed: {e}"); return 2; }
                         }
                     }
-                    Err(e) => return fail(format!("{e} (before {name:?} {op})"), &mut srv),
+                    Err(e) => {
+                        // even a fresh server cannot set the (valid) victims up: the property cannot be exercised; report and stop
+                        oracle.push(format!("valid_setup_failed name={} op={op} :: on a fresh server: {e}", hexs(name)));
+                        break 'outer;
+                    }
                 }
             }
-            if !ready { return fail("set-up failed".into(), &mut srv); }
+            if !ready { break 'outer; }
             let s0 = cx.snap();
             cx.as_user(1);
             let mut pre_code = 0u16;
